@@ -7,6 +7,7 @@ crash, sanitizer report, heap-checker report (dangling / misplaced reference aft
 different from the reference.
 """
 import importlib
+import os
 import random
 import re
 
@@ -94,7 +95,7 @@ REPLAY_MODULES = ["c03", "c05", "c06", "c07", "c12", "c14", "c15", "c18", "c19",
 
 def check(rep, tier, seed):
     rng = random.Random(seed * 15485863 + 2)
-    variants = ["hooks"] if tier == "quick" else ["hooks", "asan-rz"]
+    variants = ["hooks", "asan-rz"]      # the quick tier uses the sanitized build for the directed program only
     builds = {v: B.ensure(v) for v in variants}
     rep.builds.update(variants)
     b = builds["hooks"]
@@ -117,9 +118,29 @@ def check(rep, tier, seed):
         scheds = ["sites:2:5"]
     else:
         scheds = ["sites:2:5", "sites:3:6", "sites:2:8", "every:97:%d" % rng.randrange(97), "rand:%d:20" % seed]
+    # a directed program: bignum results that need one word more than their operand (the result is copied into a longer
+    # number while the original is held only by a C local) - arithmetic-shift rounding a negative magnitude up, sums and
+    # products crossing a word boundary, exact->inexact->exact; printed, so that the un-injected run is the oracle
+    dpath = os.path.join(R.scratch_dir("c02d"), "directed.scm")
+    with open(dpath, "w") as fh:
+        fh.write("(import (scheme base) (scheme write) (srfi 151))\n"
+                 "(define (show x) (write x) (newline))\n"
+                 "(do ((k 1 (+ k 1))) ((= k 7))\n"
+                 "  (do ((s 1 (+ s 61))) ((> s 260))\n"
+                 "    (let* ((ones (- (expt 2 (* 64 k)) 1)) (a (- (+ (* ones (expt 2 s)) 1))))\n"
+                 "      (show (arithmetic-shift a (- s)))\n"
+                 "      (show (arithmetic-shift (- a) (- s)))\n"
+                 "      (show (+ ones 1)) (show (- (- ones) 1)) (show (* ones ones)) (show (- (* ones ones)))\n"
+                 "      (show (bitwise-not ones)) (show (bitwise-xor a ones)) (show (bitwise-ior a (- ones)))\n"
+                 "      (show (exact (inexact ones))) (show (quotient (* a a) ones)))))\n")
+    tests = list(tests) + [("c02-directed-bignum-carry", [dpath])]
     jobs = []
     for name, args in tests:
         jobs.append((name, args, None, "hooks", None))
+        if name == "c02-directed-bignum-carry" and tier == "quick":
+            jobs.append((name, args, "sites:2:8", "hooks", None))      # the schedule under which the shift was caught
+            jobs.append((name, args, "sites:2:8", "asan-rz", None))    # ... and with freed chunks poisoned: a stale read
+            jobs.append((name, args, "sites:3:6", "asan-rz", None))    # is a report even when the stale bytes look right
         for s in scheds:
             jobs.append((name, args, s, "hooks", None))
         if tier != "quick":
@@ -293,6 +314,11 @@ def check(rep, tier, seed):
                     # (the slower injected run can surface a known defect under another operation name)
                     if any(report._match(f["match"], sg) for f in own if f["property"] == mname.upper()):
                         rep.count("replay_signatures_covered_by_the_workloads_own_findings")
+                        continue
+                    # a workload's own timing verdict ("did not finish in 30 s") says nothing here: injected collections
+                    # and the heap walk after every third one make deep structures many times slower
+                    if (sg.get("check") or sg.get("what") or sg.get("kind")) in ("termination", "timeout", "hang", "no-progress"):
+                        rep.inconc("replayed-workload-timing-verdict-under-injection", "%s %s" % (mname, key[:120]))
                         continue
                     rep.violation({"check": "replay-under-injection", "workload": mname, "how": "only-under-injection",
                                    "mode": sg.get("mode") or sg.get("kind") or sg.get("check")},
